@@ -7,7 +7,7 @@ CLASSES = {
     'load': 'int', 'index': 'int', 'downq': 'Node?', 'avg_load': 'int',
     'channel': 'Channel', 'endpoint': 'any',
     # ghost: requests dispatched to the node and not yet released; membership of the down list
-    'g_out': 'int', 'g_inq': 'bool', 'g_rank': 'int'}, ghost=['g_out', 'g_inq', 'g_rank']),
+    'g_out': 'int', 'g_inq': 'bool', 'g_rank': 'int'}, ghost=['g_out', 'g_inq', 'g_rank'], final=True),
   'ChannelFactory': dict(extern=True, path=None, fields={}, bases=[]),
   'HeapBalancerSink': dict(path='HeapBalancerSink', bases=['LoadBalancerSink'], fields={
     '_heap': 'list[Node]', '_size': 'int', '_downq': 'Node?', '_open': 'bool',
@@ -25,6 +25,10 @@ PREDICATES = {
   'hle': (['a', 'b'], 'not (b < a)'),
   # position <-> index bijection on [1, len)
   'hbij': (['heap'], 'forall(k, 1, len(heap), heap[k].index == k)'),
+  # well-formedness of the node universe w.r.t. this heap list (see HI_nodes)
+  'hwf': (['heap'],
+     'forall(k, 0, len(heap), allocated(heap[k])) and '
+     'forall_ref(r, Node, implies(allocated(r) and r.index >= 0, r.index < len(heap) and heap[r.index] == r), r.index)'),
   # r is stored in the heap (at its own index)
   'inheap': (['heap', 'r'], '1 <= r.index and r.index < len(heap) and heap[r.index] == r'),
   # heap order at position c (c >= 2): parent <= child
@@ -38,12 +42,11 @@ PREDICATES = {
 
 PREDICATES.update({
   'HI_shape': (['s'], 'len(s._heap) == s._size + 1 and s._size >= 0'),
-  'HI_bij': (['s'], 'hbij(s._heap) and s._heap[0].index == 0 and allocated(s._heap[0])'),
+  'HI_bij': (['s'], 'hbij(s._heap) and s._heap[0].index == 0'),
   'HI_ord': (['s'], 'forall(c, 2, s._size + 1, ordat(s._heap, c))'),
   # per-instance node universe: a node with a non-negative index sits in the heap at that index;
   # the sentinel (index 0) is never on the down list
-  'HI_nodes': (['s'],
-     'forall_ref(r, Node, implies(allocated(r) and r.index >= 0, r.index < len(s._heap) and s._heap[r.index] == r), r.index)'),
+  'HI_nodes': (['s'], 'hwf(s._heap)'),
   # load encoding: Idle + outstanding while up, outstanding (= Idle + Penalty + outstanding) while marked down
   'HI_loads': (['s'],
      'forall_ref(r, Node, implies(allocated(r), 0 <= r.g_out and r.g_out <= 2147483645 and '
@@ -70,12 +73,12 @@ FUNCTIONS = {
 
   'Heap.Swap': dict(
     params={'heap': 'list[Node]', 'i': 'int', 'j': 'int'},
-    requires=['1 <= i and i < len(heap)', '1 <= j and j < len(heap)', 'hbij(heap)'],
+    requires=['1 <= i and i < len(heap)', '1 <= j and j < len(heap)', 'hbij(heap)', 'heap[0].index == 0', 'hwf(heap)'],
     ensures=_SWAP_FRAME + [
       'heap[i] == old(heap[j])', 'heap[j] == old(heap[i])',
       'heap[i].index == i', 'heap[j].index == j',
       'forall_ref(r, Node, implies(r != heap[i] and r != heap[j], r.index == old(r.index)), r.index)',
-      'hbij(heap)',
+      'hbij(heap)', 'hwf(heap)',
     ],
     modifies=['list[Node].items', 'Node.index'],
     props=['C03'],
@@ -84,14 +87,14 @@ FUNCTIONS = {
   'Heap.FixDown': dict(
     params={'heap': 'list[Node]', 'i': 'int', 'j': 'int'},
     requires=[
-      '1 <= i and i < len(heap)', 'j < len(heap)', 'hbij(heap)',
+      '1 <= i and i < len(heap)', 'j < len(heap)', 'hbij(heap)', 'heap[0].index == 0', 'hwf(heap)',
       # order everywhere in [2..j] except the pairs that involve position i
       'forall(c, 2, j + 1, implies(floor_div(c, 2) != i and c != i, ordat(heap, c)))',
       # children of i are not below i's parent
       'implies(i >= 2, forall(c, 2, j + 1, implies(floor_div(c, 2) == i, hle(heap[floor_div(i, 2)], heap[c]))))',
     ],
     ensures=[
-      'len(heap) == old(len(heap))', 'hbij(heap)', 'perm_frame(heap)',
+      'len(heap) == old(len(heap))', 'hbij(heap)', 'perm_frame(heap)', 'hwf(heap)',
       'forall(k, 0, len(heap), implies(k < old(i) or k > j, heap[k] == old(heap[k])))',
       'forall(c, 2, j + 1, implies(c != old(i), ordat(heap, c)))',
       'implies(old(i >= 2 and ordat(heap, i)), ordat(heap, old(i)))',
@@ -101,7 +104,7 @@ FUNCTIONS = {
     loops={0: dict(
       modifies=['list[Node].items', 'Node.index'],
       invariant=[
-        'old(i) <= i', 'len(heap) == old(len(heap))', 'hbij(heap)', 'perm_frame(heap)',
+        'old(i) <= i', 'len(heap) == old(len(heap))', 'hbij(heap)', 'perm_frame(heap)', 'hwf(heap)',
         'forall(k, 0, len(heap), implies(k < old(i) or k > j, heap[k] == old(heap[k])))',
         'forall(c, 2, j + 1, implies(floor_div(c, 2) != i and c != old(i), ordat(heap, c)))',
         'implies(i >= 2, forall(c, 2, j + 1, implies(floor_div(c, 2) == i, hle(heap[floor_div(i, 2)], heap[c]))))',
@@ -117,13 +120,14 @@ FUNCTIONS = {
   'Heap.FixUp': dict(
     params={'heap': 'list[Node]', 'i': 'int'},
     requires=[
-      '1 <= i and i < len(heap)', 'hbij(heap)',
+      '1 <= i and i < len(heap)', 'hbij(heap)', 'heap[0].index == 0', 'hwf(heap)',
       # order everywhere except at i and at the last position
       'forall(c, 2, len(heap) - 1, implies(c != i, ordat(heap, c)))',
       'implies(i >= 2, forall(c, 2, len(heap) - 1, implies(floor_div(c, 2) == i, hle(heap[floor_div(i, 2)], heap[c]))))',
     ],
     ensures=[
-      'len(heap) == old(len(heap))', 'hbij(heap)', 'perm_frame(heap)', 'heap[0] == old(heap[0])',
+      'len(heap) == old(len(heap))', 'hbij(heap)', 'perm_frame(heap)', 'heap[0] == old(heap[0])', 'hwf(heap)',
+      'forall(k, 0, len(heap), implies(k > old(i), heap[k] == old(heap[k])))',
       'forall(c, 2, len(heap) - 1, ordat(heap, c))',
       'implies(old(i) == len(heap) - 1 and old(i) >= 2, ordat(heap, len(heap) - 1))',
       'implies(old(i != len(heap) - 1 and len(heap) - 1 >= 2 and ordat(heap, len(heap) - 1) and '
@@ -134,7 +138,8 @@ FUNCTIONS = {
     loops={0: dict(
       modifies=['list[Node].items', 'Node.index'],
       invariant=[
-        '1 <= i and i <= old(i)', 'len(heap) == old(len(heap))', 'hbij(heap)', 'perm_frame(heap)', 'heap[0] == old(heap[0])',
+        '1 <= i and i <= old(i)', 'len(heap) == old(len(heap))', 'hbij(heap)', 'perm_frame(heap)', 'heap[0] == old(heap[0])', 'hwf(heap)',
+        'forall(k, 0, len(heap), implies(k > old(i), heap[k] == old(heap[k])))',
         'forall(c, 2, len(heap) - 1, implies(c != i, ordat(heap, c)))',
         'implies(i >= 2, forall(c, 2, len(heap) - 1, implies(floor_div(c, 2) == i, hle(heap[floor_div(i, 2)], heap[c]))))',
         # the last position: fixed if it is where we started, preserved if it was fine
@@ -185,7 +190,10 @@ FUNCTIONS = {
       'HeapInv(self)', 'self._size >= old(self._size)',
       'result == self._heap[1]',
       'result.channel.state == ChannelState.Open or result.load >= 0',
+      # the root is a minimum of the repository's own (load, index) order over all members
+      'forall(k, 1, self._size + 1, hle(result, self._heap[k]))',
     ],
+    lemmas=['k: lemma_root_min(self._heap, self._size, k)'],
     modifies=['Node.load', 'Node.index', 'Node.downq', 'Node.g_inq', 'Node.g_rank', 'list[Node].items', 'HeapBalancerSink._downq'],
     ghost=[
       {'before': 'n = n.downq', 'do': ['n.g_inq = False']},
@@ -220,6 +228,46 @@ FUNCTIONS = {
     props=['C03', 'C04'],
   ),
 
+  # ghost lemma: in a heap ordered on [2..n] the root is a minimum (induction along k -> k//2)
+  'lemma_root_min': dict(
+    ghost_fn='''
+def lemma_root_min(heap, n, k):
+  j = k
+  while j > 1:
+    j = j // 2
+''',
+    params={'heap': 'list[Node]', 'n': 'int', 'k': 'int'},
+    requires=['n < len(heap)', 'forall(c, 2, n + 1, ordat(heap, c))', '1 <= k and k <= n'],
+    ensures=['hle(heap[1], heap[k])'],
+    modifies=[],
+    loops={0: dict(invariant=['1 <= j and j <= k', 'hle(heap[j], heap[k])'], decreases='j', modifies=[])},
+    props=['C03'],
+  ),
+
+  'HeapBalancerSink._AddSink': dict(
+    cls='HeapBalancerSink', params={'endpoint': 'any', 'sink_factory': 'ChannelFactory'}, returns='AsyncResult',
+    locals={'new_node': 'Node'},
+    requires=['HeapInv(self)'],
+    ensures=['HeapInv(self)', 'self._size == old(self._size) + 1',
+             'self._heap[self._size].endpoint == endpoint or exists(k, 1, self._size + 1, self._heap[k].endpoint == endpoint and self._heap[k].g_out == 0 and fresh(self._heap[k]))',
+             'forall_ref(r, Node, implies(old(allocated(r)), r.g_out == old(r.g_out) and r.load == old(r.load)), r.g_out)',
+             'forall_ref(c, Channel, implies(old(allocated(c)), c.state == old(c.state)), c.state)'],
+    modifies=['Node.load', 'Node.index', 'Node.downq', 'Node.avg_load', 'Node.channel', 'Node.endpoint',
+              'Node.g_out', 'Node.g_inq', 'list[Node]', 'HeapBalancerSink._size', 'Channel.state', '$cls'],
+    allocates='any',
+    ghost=[{'after': 'new_node = self.Node(sink_factory(), self.Idle, self._size, endpoint)',
+            'do': ['new_node.g_out = 0', 'new_node.g_inq = False']}],
+    props=['C03', 'C04', 'C05'],
+  ),
+
+  'HeapBalancerSink._OpenNode': dict(
+    cls='HeapBalancerSink', params={'n': 'Node'}, returns='AsyncResult',
+    requires=[], ensures=[], modifies=[], allocates=True, trusted=True,
+    notes='n.channel.Open().ContinueWith(...).Unwrap(): starts the open; assumed to change no balancer state synchronously '
+          '(the completion callback _OnOpenNodeComplete -> _OnNodeDown runs later as its own entry point)',
+    props=['C03'],
+  ),
+
   'HeapBalancerSink._FindNodeByEndpoint': dict(
     cls='HeapBalancerSink', params={'endpoint': 'any'}, returns='Node?',
     requires=['HI_shape(self)'],
@@ -246,6 +294,9 @@ FUNCTIONS = {
 }
 
 EXTERNS = {
+  'ChannelFactory.__call__': dict(params=[], returns='Channel', fresh=True, allocates=True,
+                                  notes='functools.partial(next_provider.CreateSink, properties): builds a new member channel; touches no existing object'),
+  'AsyncResult.Complete': dict(params=[], returns='AsyncResult'),
   'random.randint': dict(params=[('a', 'int'), ('b', 'int')], returns='int',
                          requires=['a <= b'], ensures=['a <= result and result <= b'],
                          notes='unconstrained choice in range: every outcome of the random draw is covered'),
